@@ -68,7 +68,7 @@ EXPECTED_PROBES = [
     'cut_in_tip', 'cut_in_tip_1', 'cut_in_tip_2', 'cut_aligned', 'chunk_honest_stored', 'chunk_bad_rejected',
     'chunk_uncheckpointed_ignored', 'zero_filled_open', 'full_walk', 'mined_clamp_low', 'mined_clamp_high',
     'mined_neg_delta', 'mined_capped', 'mined_trunc_vs_floor', 'tip_on_repair_batch_edge', 'base_prefix_short',
-]
+] + ['cut_enum_slice_%02d' % i for i in range(21)]   # every byte offset of the last three headers (336 = 21 x 16)
 
 HS = lc.HEADER_SIZE
 FIELDS = {'version': (0, 32), 'prev': (4, 256), 'merkle': (36, 256), 'claim': (68, 256),
@@ -907,6 +907,7 @@ class _Exec:
                 run.probes[['cut_in_tip', 'cut_in_tip_1', 'cut_in_tip_2'][where]] += 1
             if op.get('enum'):
                 run.probes['cut_enum_offset'] += 1
+                run.probes['cut_enum_slice_%02d' % ((len(F) - cut_at - 1) // 16)] += 1   # 21 slices x 16 offsets
         Fp = bytes(Fp)
         if kinds or Fp != F:
             with open(self.path, 'wb') as f:
@@ -923,9 +924,12 @@ class _Exec:
         R, Fp, D = ctx['R'], ctx['Fp'], ctx['D']
         fault = '+'.join(sorted(set(ctx['kinds'])))
         Rh, Wc = len(R) // HS, len(Fp) // HS
+        first_seen = 0 if len(Fp) % HS else self.rs
+        edge = Wc - 1 > first_seen and (Wc - 1 - first_seen) % 36 == 0   # tip starts a 36-header repair batch
         run.probes['reopen'] += 1
         if L2 * HS > len(io) or L2 < 0:
-            return self.viol('C07.reopen_not_prefix', f'len()={L2} but only {len(io)} bytes are loaded', fault=fault)
+            return self.viol('C07.reopen_not_prefix', f'len()={L2} but only {len(io)} bytes are loaded', fault=fault,
+                             tip_edge=edge)
         loaded = io[:L2 * HS]
         if self.cps and not Fp and L2 == 1000 and loaded == bytes(1000 * HS):
             run.probes['zero_filled_open'] += 1       # empty file + checkpoint: placeholder for the chunk
@@ -935,8 +939,7 @@ class _Exec:
         aligned = len(Fp) % HS == 0
         if not aligned:
             run.probes['repair_from_zero'] += 1
-        first_seen = 0 if not aligned else self.rs
-        if Wc - 1 > first_seen and (Wc - 1 - first_seen) % 36 == 0:
+        if edge:
             run.probes['tip_on_repair_batch_edge'] += 1
         fi_R = self.fi(R)[0]
         run.ev('open', L2, Rh, Wc, fi_R, _short(loaded))
@@ -944,14 +947,14 @@ class _Exec:
             d = lc.common_prefix_headers(loaded, R)
             return self.viol('C07.reopen_not_prefix', f'after {fault} the loaded chain ({L2} headers) differs from '
                              f'the {Rh} stored headers at height {d} (file had {Wc} whole headers, damaged {sorted(D)})',
-                             fault=fault)
+                             fault=fault, tip_edge=edge)
         cands = list(D) + ([fi_R] if fi_R < Rh else [])
         first_bad = min(cands) if cands else None
         need = Wc if first_bad is None or first_bad >= Wc else first_bad - 1
         if L2 < need:
             return self.viol('C07.reopen_dropped_too_much', f'after {fault} {L2} headers were loaded; {Wc} whole '
                              f'headers were in the file, first damaged/stale height {first_bad}: at least {need} '
-                             f'must survive', fault=fault)
+                             f'must survive', fault=fault, tip_edge=edge)
         fi_L = min(fi_R, L2)
         rule = self.chain.first_invalid(R, fi_L, fi_L + 1)[1] if fi_L < L2 else None
         if fi_L < L2 and fi_L == Wc - 1 and rule in ('bits', 'pow') and fi_L not in D:
@@ -961,7 +964,7 @@ class _Exec:
         elif fi_L < L2 and not (aligned and fi_R <= self.rs):
             return self.viol('C07.reopen_invalid', f'after {fault} the loaded chain has {L2} headers but the one at '
                              f'height {fi_L} breaks rule {rule} (damaged {sorted(D)}, file had {Wc} whole headers)',
-                             fault=fault)
+                             fault=fault, tip_edge=edge)
         if L2 == Rh and Fp == R:
             run.probes['reopen_clean_identical'] += 1
         if L2 < Wc:
